@@ -280,6 +280,9 @@ Ltac rstep :=
   | |- runs (let _ := _ in _) _ _ _ => cbv zeta
   end.
 
+Ltac ropt x H := repeat (apply runs_assoc); apply (runs_bind_of_opt _ _ _ x); [exact H | cbv beta].
+Ltac rguard H := repeat (apply runs_assoc); apply runs_bind_guard; [exact H | cbv beta].
+
 (* the loop rule: [J done w] after the elements [done] have been processed *)
 Lemma runs_iterM : forall A (f : A -> M unit) (J : list A -> world -> Prop) (G : effect -> Prop) l w,
   J [] w ->
@@ -1375,12 +1378,12 @@ Lemma reset_target_elim : forall w a tid, reset_target w a = Some tid ->
     r_id r = Some tid.
 Proof.
   intros w a tid H. unfold reset_target in H.
-  destruct (reset_arg a) as [n|]; [|discriminate H].
+  destruct (reset_arg a) as [n|] eqn:E1; [|discriminate H].
   destruct (N.leb n 9223372036854775807) eqn:E2; [|discriminate H].
-  destruct (w_hlog w) as [hl|]; [|discriminate H].
-  destruct (parse_reflog hl) as [rs|]; [|discriminate H].
+  destruct (w_hlog w) as [hl|] eqn:E3; [|discriminate H].
+  destruct (parse_reflog hl) as [rs|] eqn:E4; [|discriminate H].
   destruct (get_record rs (N.to_nat (N.min n (N.of_nat (length rs))))) as [r|] eqn:E5; [|discriminate H].
-  exists n, hl, rs, r. repeat split; try reflexivity. Show. all: assumption.
+  exists n, hl, rs, r. repeat split; assumption.
 Qed.
 
 Definition reset_mode_ok (soft mixed hard : bool) : bool :=
@@ -1503,7 +1506,7 @@ Section ResetRuns.
     apply (runs_bind_of_opt _ _ _ tid); [exact H6|].
     rewrite Hheadc. apply (runs_bind_of_opt _ _ _ tc); [exact Hcommit|].
     apply runs_bind_guard; [exact Hbranch|].
-    unfold reset_head_trace. cbn [app]. rstep. rstep. rstep. rstep. exact Hk.
+    unfold reset_head_trace. cbn [app]. rstep. rstep. rstep. exact Hk.
   Qed.
 
   (* --soft: the branch and the journals move; staging area and work tree stay *)
@@ -1533,10 +1536,140 @@ Section ResetRuns.
   Proof.
     intros d ns Hd Hns tr. split; [|split; [|split]].
     - unfold tr. apply reset_prefix_runs; [reflexivity|]. cbn [orb]. cbv zeta.
-      rstep. apply (runs_bind_of_opt _ _ _ d); [exact Hd|].
-      apply (runs_bind_of_opt _ _ _ ns); [exact Hns|]. rstep. rstep. rstep. rstep.
+      ropt d Hd. ropt ns Hns. cbv zeta. repeat rstep.
     - unfold tr. apply reset_common_after. repeat constructor.
     - reflexivity.
     - split; reflexivity.
   Qed.
 End ResetRuns.
+
+(* ---------- --hard (partial: the success case) ---------- *)
+Lemma reset_entries_intro : forall w a tid tc d ns,
+  reset_target w a = Some tid -> get_commit (w_objs w) tid = Some tc ->
+  get_kind (w_objs w) KTree (c_tree tc) = Some d ->
+  walk_tree (S (length (w_objs w))) (w_objs w) d = Some ns ->
+  reset_entries w a = Some (flatten [] ns).
+Proof. intros w a tid tc d ns H1 H2 H3 H4. unfold reset_entries. rewrite H1, H2, H3, H4. reflexivity. Qed.
+
+(* what a reset may emit: only files at paths of the target snapshot are written *)
+Definition reset_G (w : world) (a : bytes) (_ : world) (e : effect) : Prop :=
+  match e with
+  | ESetRef _ _ | EAppendHlog _ | EAppendBlog _ _ | ESetIndex _ | EMkdirAll _ => True
+  | EWriteFile q _ => exists es, reset_entries w a = Some es /\ In q (paths es)
+  | _ => False
+  end.
+
+Record reset_hard_post (w : world) (tid : bytes) (es : list entry) (w' : world) : Prop := {
+  rhp_common : reset_common_post w tid w';
+  rhp_index : idx_of w' = es;
+  rhp_written : NoDup (paths es) -> forall en, In en es ->
+                exists kd, get_obj (w_objs w) (e_id en) = Some kd /\ file w' (e_path en) = Some (snd kd);
+  rhp_untouched : forall q, ~ In q (paths es) -> file w' q = file w q
+}.
+
+Lemma reset_common_post_step : forall w tid w1 w2,
+  reset_common_post w tid w1 -> same_objs w1 w2 -> same_meta w1 w2 -> reset_common_post w tid w2.
+Proof.
+  intros w tid w1 w2 [A B C D (E1 & E2 & E3)] Ho (M1 & M2 & M3 & M4 & M5 & M6 & M7).
+  constructor.
+  - rewrite M3. exact A.
+  - intros n Hn. rewrite M3. apply B. exact Hn.
+  - congruence.
+  - apply (same_objs_trans _ _ _ D Ho).
+  - repeat split; congruence.
+Qed.
+
+Lemma ex_nodup_map_mid : forall (A B : Type) (f : A -> B) done x rest y,
+  NoDup (map f (done ++ x :: rest)) -> In y done -> f y <> f x.
+Proof.
+  intros A B f done x rest y Hnd Hy Heq. rewrite map_app in Hnd. cbn [map] in Hnd.
+  apply NoDup_remove_2 in Hnd. apply Hnd. apply in_or_app. left. rewrite <- Heq. apply in_map. exact Hy.
+Qed.
+
+Theorem cmd_reset_hard_hoare : forall e c mixed a w,
+  hoare (fun _ => True) (reset_G w a) (eq w) (cmd_reset e c false mixed true [a])
+        (fun _ w' => exists tid es, reset_target w a = Some tid /\ reset_entries w a = Some es /\
+                                    reset_hard_post w tid es w').
+Proof.
+  intros e c mixed a w. unfold cmd_reset. cbv zeta. cbn [orb andb negb].
+  hsteps; try (split; exact Logic.I).
+  match goal with H : r_id _ = Some ?t |- _ =>
+    assert (Ht : reset_target w a = Some t) by (eapply reset_target_intro; eassumption);
+    rename t into tid end.
+  match goal with H : walk_tree _ _ _ = Some ?n |- _ =>
+    assert (He : reset_entries w a = Some (flatten [] n)) by (eapply reset_entries_intro; eassumption);
+    rename n into ns end.
+  match goal with H : x_headc c = Some (?p, _) |- _ => rename p into prev end.
+  set (es := flatten [] ns) in *.
+  match goal with |- hoare _ _ (eq ?x) _ _ => set (w4 := x) end.
+  assert (H4 : reset_common_post w tid w4).
+  { exact (reset_common_after e c w prev tid a [ESetIndex es] (Forall_cons _ Logic.I (Forall_nil _))). }
+  apply at_bind with (R := fun _ w' => reset_hard_post w tid es w').
+  - apply at_iterM_idx with
+      (J := fun done w1 => reset_common_post w tid w1 /\ idx_of w1 = es /\
+              (NoDup (paths es) -> forall en, In en done ->
+                 exists kd, get_obj (w_objs w) (e_id en) = Some kd /\ file w1 (e_path en) = Some (snd kd)) /\
+              (forall q, ~ In q (paths es) -> file w1 q = file w q)).
+    + intros _. split; [exact H4|]. split; [reflexivity|]. split; [intros _ en []|reflexivity].
+    + intros done x rest w1 El _ (Jc & Ji & Jd & Jk).
+      assert (Hx : In x es) by (rewrite El; apply in_or_app; right; left; reflexivity).
+      hsteps.
+      match goal with Hk : get_obj (w_objs w1) (e_id x) = Some ?k |- _ => rename k into kd; rename Hk into Hkd end.
+      apply at_call with (P := eq w1) (R := fun _ w2 => wt_put_post w1 (e_path x) (snd kd) w2); [| auto |].
+      * apply hoare_weaken_G with (G := wt_G (fun q => In q (paths es))).
+        { intros w0 ef _ Hg. destruct ef; try contradiction Hg; try exact Logic.I.
+          exists es. split; [exact He | exact Hg]. }
+        apply wt_put_hoare. apply in_map. exact Hx.
+      * intros _ w2 _ [Pf Po Pi Pob Pm].
+        split; [apply (reset_common_post_step _ _ _ _ Jc Pob Pm)|].
+        split; [unfold idx_of in *; rewrite Pi; exact Ji|]. split.
+        -- intros Hnd en Hen. apply in_app_or in Hen. destruct Hen as [Hen|[<-|[]]].
+           ++ destruct (Jd Hnd en Hen) as [kd' [Hg' Hf']]. exists kd'. split; [exact Hg'|].
+              rewrite Po; [exact Hf'|]. unfold paths in Hnd. rewrite El in Hnd.
+              apply (ex_nodup_map_mid _ _ e_path done x rest en Hnd Hen).
+           ++ exists kd. split; [|exact Pf]. destruct Jc as [_ _ _ [Jo _] _]. rewrite <- Jo. exact Hkd.
+        -- intros q Hq. rewrite Po; [apply Jk; exact Hq|].
+           intros ->. apply Hq. apply in_map. exact Hx.
+    + intros w1 _ (Jc & Ji & Jd & Jk). constructor; assumption.
+  - intros [] w1 _ Hp. hsteps. exists tid, es. auto.
+Qed.
+
+(* C08 --hard as a statement about [run_m] *)
+Theorem cmd_reset_hard_spec : forall e c mixed a w out w' tr,
+  run_m (cmd_reset e c false mixed true [a]) w = (Ok out, w', tr) ->
+  exists tid es, reset_target w a = Some tid /\ reset_entries w a = Some es /\
+                 reset_hard_post w tid es w' /\ w' = apply_effects tr w.
+Proof.
+  intros e c mixed a w out w' tr Hrun. unfold run_m in Hrun.
+  destruct (cmd_reset e c false mixed true [a] (mkMS w [] None)) as [r s'] eqn:Em.
+  injection Hrun as -> <- <-.
+  destruct (hoare_sound _ _ _ _ _ _ w [] None (Ok out) s' (cmd_reset_hard_hoare e c mixed a w) Logic.I eq_refl Em)
+    as (tr0 & Ht & Hw & Hs & _ & _ & _ & HQ).
+  cbn [app] in Ht. subst tr0. destruct (HQ out eq_refl) as (tid & es & H1 & H2 & H3).
+  exists tid, es. auto.
+Qed.
+
+(* whatever the outcome of [reset --hard] (also when a write fails part-way),
+   a file whose path is not in the target snapshot is never written:
+   "never touches a file that was never tracked" *)
+Theorem cmd_reset_hard_frame : forall e c mixed a w r w' tr q,
+  run_m (cmd_reset e c false mixed true [a]) w = (r, w', tr) ->
+  (forall es, reset_entries w a = Some es -> ~ In q (paths es)) ->
+  file w' q = file w q.
+Proof.
+  intros e c mixed a w r w' tr q Hrun Hq. unfold run_m in Hrun.
+  destruct (cmd_reset e c false mixed true [a] (mkMS w [] None)) as [r0 s'] eqn:Em.
+  injection Hrun as -> <- <-.
+  destruct (hoare_sound _ _ _ _ _ _ w [] None r s' (cmd_reset_hard_hoare e c mixed a w) Logic.I eq_refl Em)
+    as (tr0 & Ht & Hw & Hs & _).
+  cbn [app] in Ht. subst tr0. rewrite Hw.
+  pose proof (steps_ok_forall _ _ _ (fun w1 e0 He => He) _ _ Hs) as Hall. cbv beta in Hall.
+  clear Em Hs Hw. generalize dependent w. intros w Hq Hall.
+  assert (Hgen : forall tr0 w1, Forall (fun e0 => reset_G w a w e0) tr0 -> file (apply_effects tr0 w1) q = file w1 q).
+  { induction tr0 as [|e0 tr0 IH]; intros w1 Hf; [reflexivity|].
+    inversion Hf as [|e0' tr0' He0 Htr0]; subst. rewrite apply_effects_cons, (IH _ Htr0).
+    destruct e0; try contradiction He0; try reflexivity.
+    unfold file. autorewrite with wfields. apply ex_am_get_set_other.
+    destruct He0 as [es [He1 He2]]. intros ->. apply (Hq es He1 He2). }
+  apply Hgen. exact Hall.
+Qed.
